@@ -144,7 +144,7 @@ fn run(r: &mut Run) -> Result<(), MachineryError> {
     if t == Tier::Quick {
         algs.truncate(2);
     }
-    let g = Gamma { seps: seps(), algs, spls: vec![Spl::None, Spl::Hyphen], bws: vec![true, false], indents: vec![("", ""), (">", ""), ("", ">>"), ("\u{4f60}", ">")], crlf: vec![false] };
+    let g = Gamma { seps: seps(), algs, spls: vec![Spl::None, Spl::Hyphen], bws: vec![true, false], indents: vec![("", ""), (">", ""), ("", ">>"), ("\u{4f60}", ">"), ("\x1b[1m>\x1b[0m", "")], crlf: vec![false] };
     text_space(r, "C03/text", &[L, LL, LLL, SP, HY, NL, W], t.pick(4, 6), &g, M_C03, WidthMode::Display, 0)?;
-    Ok(())
+    scale::frag_scale(r, "C03/long-periodic", "C03")
 }
